@@ -194,6 +194,7 @@ type Exec struct {
 	noTrack  bool
 	unsatCache map[uint32]bool
 	faults   int
+	schedChoices int
 }
 
 func (ex *Exec) unsupported(msg string) pathEnd {
